@@ -29,7 +29,7 @@ class _State:
   def __init__(self, assigned, versions=None, guards=None):
     self.assigned = set(assigned)
     self.versions = dict(versions or {})
-    self.guards = dict(guards or {})   # guard text -> (names, versions of free names)
+    self.guards = dict(guards or {})   # canonical guard text -> (names bound when it holds, names bound when it fails, versions of free names)
 
   def copy(self):
     return _State(self.assigned, self.versions, self.guards)
@@ -288,19 +288,38 @@ class DA:
         self.check_expr(c, st)
     return st, False
 
+  @staticmethod
+  def _guard_key(test):
+    """(canonical text, polarity): `not x`, `x is not None`, `a != b` are the negations of `x`, `x is None`, `a == b`."""
+    pos = True
+    t = test
+    while True:
+      if isinstance(t, ast.UnaryOp) and isinstance(t.op, ast.Not):
+        t, pos = t.operand, not pos
+        continue
+      if isinstance(t, ast.Compare) and len(t.ops) == 1 and isinstance(t.ops[0], (ast.IsNot, ast.NotEq, ast.NotIn)):
+        op = {ast.IsNot: ast.Is, ast.NotEq: ast.Eq, ast.NotIn: ast.In}[type(t.ops[0])]()
+        t = ast.Compare(left=t.left, ops=[op], comparators=t.comparators)
+        pos = not pos
+        continue
+      break
+    return ast.unparse(t), pos
+
   def if_(self, s, st):
     self.check_expr(s.test, st)
-    gtext = ast.unparse(s.test)
+    gtext, pos = self._guard_key(s.test)
     gfree = _free_names(s.test)
     a = st.copy()
-    # correlated guard: same text, free names unchanged since it was recorded
+    b = st.copy()
+    # correlated guard: same (canonical) test, free names unchanged since it was recorded: names assigned only when
+    # the test held are assigned again where it holds, names assigned only when it failed where it fails
     rec = st.guards.get(gtext)
     if rec is not None:
-      names, vers = rec
+      names_t, names_f, vers = rec
       if all(st.versions.get(k, 0) == v for k, v in vers.items()):
-        a.assigned |= names
+        (a if pos else b).assigned |= names_t
+        (b if pos else a).assigned |= names_f
     a, aterm = self.block(s.body, a)
-    b = st.copy()
     b, bterm = self.block(s.orelse, b)
     if aterm and bterm:
       return a, True
@@ -313,9 +332,11 @@ class DA:
       merged.versions[k] = max(a.versions.get(k, 0), b.versions.get(k, 0))
     merged.guards = dict(st.guards)
     only_a = a.assigned - b.assigned - st.assigned
-    if only_a and not (gfree & {n for n in only_a}):
-      merged.guards[gtext] = (set(only_a) | (st.guards.get(gtext, (set(), {}))[0] if gtext in st.guards else set()),
-                              {k: merged.versions.get(k, 0) for k in gfree})
+    only_b = b.assigned - a.assigned - st.assigned
+    if (only_a or only_b) and not (gfree & (set(only_a) | set(only_b))):
+      old_t, old_f = (st.guards[gtext][0], st.guards[gtext][1]) if gtext in st.guards else (set(), set())
+      t_names, f_names = (only_a, only_b) if pos else (only_b, only_a)
+      merged.guards[gtext] = (set(t_names) | old_t, set(f_names) | old_f, {k: merged.versions.get(k, 0) for k in gfree})
     return merged, False
 
 
